@@ -65,11 +65,28 @@ def fp_specials(c):
         for k in FACTORS:
             for dl in ('full', 'gap'):
                 cases.append((ty, 'g', 'g', dl, 'full', 'SCALE', k, 1, len(specials), [1.0] * len(specials), list(specials)))
+    # every operation x every back-end pair on degenerate value sets, with every (destination, source) pair of the set present
+    for sub in ([0.0, -0.0], [0.0, -0.0, float('nan')], [float('nan'), math.inf]):
+        m = len(sub)
+        dvs = [sub[i % m] for i in range(m * m)]
+        svs = [sub[(i // m) % m] for i in range(m * m)]
+        for op in ('SCALE', 'ADDTO', 'APPLYFUNC', 'COPYFROM', 'MAX', 'MIN'):
+            for db in 'gc':
+                for sb in 'gc':
+                    for (dl, sl) in (('full', 'full'), ('gap', 'step')):
+                        cases.append((rng.choice(['float64', 'float32']), db, sb, dl, sl, op, rng.choice([1.0, -1.0, 0.0, -0.0]), 1, m * m, list(dvs), list(svs)))
     for _ in range(n):
         ty = rng.choice(['float64', 'float32'])
         specials = SPECIALS64 if ty == 'float64' else SPECIALS32
         r, cc = rng.randint(1, 3), rng.randint(1, 4)
         draw = lambda: [rng.choice(specials) if rng.random() < 0.7 else float(rng.randint(-9, 9)) for _ in range(r * cc)]
+        if rng.random() < 0.3:
+            # DEGENERATE VALUE SETS: destination and source hold nothing but one to three special values (only zeros of both
+            # signs; zeros and NaN; only NaN; only infinities ...) - a decision taken from a summary of the data (its largest
+            # magnitude, "does it differ from what is there already", its sum) goes wrong exactly when no ordinary value is present
+            sub = rng.choice([[0.0, -0.0], [0.0, -0.0, float('nan')], [float('nan')], [0.0, float('nan')], [-0.0], [0.0],
+                              [math.inf, -math.inf], [math.inf, float('nan'), -0.0], [specials[7], specials[8]], [specials[9], -0.0, 0.0]])
+            draw = lambda: [rng.choice(sub) for _ in range(r * cc)]
         cases.append((ty, rng.choice('gc'), rng.choice('gc'), rng.choice(LAYOUTS), rng.choice(LAYOUTS), rng.choice(ops),
                       rng.choice(FACTORS), r, cc, draw(), draw()))
     lines = []
